@@ -166,24 +166,21 @@ theorem pe_export_names_sound (sz off n : BitVec 64) (ho : off.toNat ≤ sz.toNa
 
 example : pe_exports_table_outside 0x1000#64 0xff0#64 4#64 = false ∧ pe_exports_table_outside 0x1000#64 0xff0#64 5#64 = true := by decide
 
-/-- pe.c Rich-header search (F60): the test before `p = pe->data + nthdr_offset - 4; … *p` accepts `nthdr_offset` up to
-    `data_size + 4`, i.e. a 4-byte read that may end 4 bytes past the file. PARTIAL: sound only with the extra hypothesis
-    `nthdr_offset ≤ data_size`, which the only caller establishes beforehand (pe_get_header accepted the same e_lfanew), so no
-    input reaches the gap today. Full statement (false for the current text, witness `pe_rich_nthdr_v452_unsound_witness`):
-    the same without `hn`. Proposed one-token patch: notes/C06-rich-nthdr.diff. -/
-theorem pe_rich_nthdr_sound_partial (sz off : BitVec 64) (hs : sz.toNat + 4 < 2 ^ 64) (hn : off.toNat ≤ sz.toNat)
+/-- pe.c Rich-header search (F60, fixed by 05c674d): the test before `p = pe->data + nthdr_offset - 4; … *p` now implies, for
+    ALL 64-bit values and with no further hypothesis, that the 4-byte read `[nthdr_offset - 4, nthdr_offset)` lies inside the file.
+    (4.5.2 accepted `nthdr_offset ≤ data_size + 4`; the frozen text and its witness are kept below as a regression example.) -/
+theorem pe_rich_nthdr_sound (sz off : BitVec 64)
     (h : pe_rich_nthdr_reject sz off = false) : 4 ≤ off.toNat ∧ (off.toNat - 4) + 4 ≤ sz.toNat := by
-  simp only [pe_rich_nthdr_reject, Bool.or_eq_false_iff, decide_eq_false_iff_not, BitVec.lt_def, BitVec.toNat_add] at h
+  simp only [pe_rich_nthdr_reject, Bool.or_eq_false_iff, decide_eq_false_iff_not, BitVec.lt_def] at h
   have h4 : (4#64).toNat = 4 := by decide
   omega
 
-/-- pe.c security directory (F61): `VirtualAddress + Size` is computed in 32 bits (both are `yr_le32toh(...)`), so the
-    sum can wrap for files of 2 GiB and more. PARTIAL: sound for `data_size < 2^31`; witness for larger files
-    `pe_security_dir_v452_unsound_witness`. Proposed patch: notes/C06-security-dir.diff. -/
-theorem pe_security_dir_sound_partial (sz va n : BitVec 64) (hs : sz.toNat < 2 ^ 31)
+/-- pe.c security directory (F61, fixed by e5d373e): `VirtualAddress + Size` is added in 64 bits; for all 32-bit field values
+    (`va`, `n` < 2^32, which is what `yr_le32toh` yields) and every file size the accepted directory lies inside the file. -/
+theorem pe_security_dir_sound (sz va n : BitVec 64) (hva : va.toNat < 2 ^ 32) (hn : n.toNat < 2 ^ 32)
     (h : pe_security_dir_reject sz va n = false) : 0 < va.toNat ∧ va.toNat + n.toNat ≤ sz.toNat := by
   simp only [pe_security_dir_reject, Bool.or_eq_false_iff, decide_eq_false_iff_not, BitVec.lt_def, BitVec.toNat_add,
-    beq_eq_false_iff_ne, ne_eq, BitVec.toNat_eq, toNat_w32] at h
+    beq_eq_false_iff_ne, ne_eq, BitVec.toNat_eq] at h
   have h0 : (0#64).toNat = 0 := by decide
   omega
 
